@@ -750,7 +750,19 @@ func runConc(c concCase) *vh.Failure {
 	var tot execStats
 	reps := c.Reps
 	if vh.Replaying() {
-		reps *= 20 // a saved case is only a recipe for schedules: try harder to hit the bad one
+		// a saved case is only a recipe for schedules: try much harder to hit the bad one
+		// (about 300k library calls, at least 20x and at most 20000 executions)
+		size := 1
+		for _, a := range c.Assign {
+			size += len(c.Progs[a])
+		}
+		reps *= 20
+		if r := 300000 / size; r > reps {
+			reps = r
+		}
+		if reps > 20000 {
+			reps = 20000
+		}
 	} else if shrinking() {
 		reps *= 4
 	}
